@@ -9,6 +9,7 @@ CONSTANTS
   FixWorkerErr = TRUE
   AllowStop = FALSE
   AllowFault = TRUE
+  AliveCheck = TRUE
 INVARIANT ProtocolOK
 INVARIANT ClosedAtEnd
 INVARIANT NoProblemLost
